@@ -16,7 +16,9 @@ RULE = ("Generated release/death/update histories driven through the real State 
         "compared with the Coq layout model fed with the snapshots of the real State; the oracle checks the property "
         "text (retrieval by cumulative particle_count, counts sum, time coordinate, particle variables at index pid "
         "for every released pid, dense fill values) against a truth table kept by the harness. Non-trivial = history "
-        "with a death before a record and a release after it.")
+        "with a death before a record and a release after it. Scale cases (c06_scale.py, oracle only): the same clauses "
+        "for every record of every file of large runs (1000..130000 particles with a trickle of deaths, a mass death, "
+        "> 1000 records, > 1000 files, > 1000 steps between records) through State+Output and through ladim.main.")
 TRUSTED = ["Coq 8.16.1 kernel + vm_compute", "hand-written layout model coq/Model/Output.v (sparse_write, retrieve, write_pvars, dense_write) tied by this correspondence",
            "netCDF4/HDF5 store what they are given; values integer-coded"]
 ASSUMPTIONS = ["output datatypes lossless (f8/i4)"]
@@ -25,7 +27,11 @@ DT = 600
 
 def gen_cases(ctx):
     rng = ctx.rng
-    out = []
+    # fixed cases of realistic size come first (they draw nothing from rng): up to 130000 particles with a trickle of
+    # deaths, > 1000 records, > 1000 files, > 1000 steps between records, complete runs of ladim.main; see c06_scale.py
+    import c06_scale
+
+    out = c06_scale.gen_scale_cases()
     for _ in range(70 if ctx.quick else 800):
         nsteps = rng.randint(1, 9)
         hist = []
@@ -123,6 +129,10 @@ def eval_case(desc, ctx):
     d = ctx.subdir("c06")
     for f in d.glob("*"):
         f.unlink()
+    if desc["k"] == "scale":
+        import c06_scale
+
+        return c06_scale.eval_scale(desc, d)
     if desc["k"] == "warm":
         return eval_warm(desc, d)
     if desc["k"] == "alldead":
